@@ -116,7 +116,12 @@ def parts(tier):
                                                       "templates": ["nested_object", "list_of_objects", "optional_pseudo", "two_similar_children", "recursive"]},
                shards=16, timeout=170, path_timeout=30),
         ]
-    return []
+    from vflib import progsym
+    return [
+        CH("k1k2", "vflib.props.c04:scen_tv", {"pool": "KEY_POOL_FULL", "styled": "k1k2", "templates": progsym.TEMPLATES_FULL}, shards=16, timeout=2400, path_timeout=30),
+        CH("options", "vflib.props.c04:scen_tv", {"pool": "KEY_POOL_FULL", "styled": "k3", "options": True, "templates": progsym.TEMPLATES_FULL},
+           shards=16, timeout=1500, path_timeout=30),
+    ]
 
 
 def finish_evidence(evidence, results):
@@ -132,7 +137,7 @@ META = {
                           "AttrsModelCodeGenerator.field_data", "DataclassModelCodeGenerator.field_data", "SqlModelCodeGenerator", "metadata_to_typing and all to_typing_code methods",
                           "sort_fields", "_generate_code / indent"],
     "symbolic_on_path": ["styled keys", "structural template", "framework", "layout", "meta / converters / max_literals / convert_unicode bits"],
-    "bounds": {"quick": "24-key pool; pairs of root keys x 4 templates x 5 frameworks x 2 layouts; nested-model key x 5 templates x option bits"},
+    "bounds": {"thorough": "62-key pool: all pairs x 7 templates x 5 frameworks x 2 layouts; nested-model key x 7 templates x option bits", "quick": "24-key pool; pairs of root keys x 4 templates x 5 frameworks x 2 layouts; nested-model key x 5 templates x option bits"},
     "outside_claim": ["keys outside the pool", "exact spelling of the sanitised name for unclean keys (only: identifier, derived from the key by case/punctuation folding, identity on clean keys)"],
     "assumptions": ["the independent renderer ir_to_typing implements the documented style rules (actual types under pydantic/sqlmodel, no Literal under attrs, Literal iff fewer than max_literals)",
                     "base output has no defaults by design (bare annotations)"],
